@@ -26,4 +26,4 @@ Deliver, inside {wt}/SEED/ (create it):
   patch.diff   — `git diff` of your change to non-test source only (apply with `git apply` on a clean checkout)
   demo_test.go (or demo/main.go) — the demonstration, plus DEMO.md saying exactly where to copy it and the exact command to run it
   meta.json    — {{"property": "{pid}", "summary": "<one sentence: what was changed>", "needs": "<what is needed for it to manifest>", "files": [...], "tests_run": "<command you ran and that it passed>", "demo_dest": "<repo-relative path the demo file must be copied to, e.g. executor/zz_demo_test.go>", "demo_cmd": "<exact shell command, run from the repository root, that exits 0 iff the property holds, e.g. go test -vet=off -count=1 -run TestDemoXyz ./executor/>"}}
-Before finishing: verify on a clean checkout state (git stash or checkout) that the demo passes WITHOUT the patch and fails WITH it, and that the existing tests pass WITH it. Leave the worktree with the patch applied and the demo in place. Final message: two or three lines — what you changed, what it needs to manifest, and the paths.""")
+IMPORTANT: never use `git stash` (the stash is shared between all worktrees of the repository and other people are working in sibling worktrees); to test with/without your change use `git diff > /tmp/<yourid>.diff; git apply -R /tmp/<yourid>.diff; ...; git apply /tmp/<yourid>.diff`. Before finishing: verify on the clean state that the demo passes WITHOUT the patch and fails WITH it, and that the existing tests pass WITH it. Leave the worktree with the patch applied and the demo in place. Final message: two or three lines — what you changed, what it needs to manifest, and the paths.""")
